@@ -51,6 +51,163 @@ struct TaskError : std::runtime_error
   explicit TaskError(int i) : std::runtime_error("task-error-" + std::to_string(i)), id(i) {}
 };
 
+// What throwing tasks throw (TaskRec::throwKind):
+//  0 TaskError (derived from std::runtime_error, payload id)   1 int   2 const char*   3 std::string
+//  4 PlainError (struct, NOT derived from std::exception)       5 PayloadError (derived directly from std::exception)
+//  6 nested: TaskError carrying a nested PlainError              7 nested: PlainError carrying a nested int
+struct PlainError
+{
+  int id;
+  long payload;
+};
+struct PayloadError : std::exception
+{
+  int id;
+  std::string text;
+  explicit PayloadError(int i) : id(i), text("payload-" + std::to_string(i)) {}
+  const char *what() const noexcept override { return text.c_str(); }
+};
+constexpr int kThrowKinds = 8;
+const char *throwName(int k)
+{
+  static const char *n[] = {"TaskError", "int", "const char*", "std::string", "PlainError", "PayloadError", "nested(TaskError<-PlainError)", "nested(PlainError<-int)"};
+  return k >= 0 && k < kThrowKinds ? n[k] : "?";
+}
+long plainPayload(int id) { return static_cast<long>(id) * 31 + 7; }
+
+struct Thrown
+{
+  int kind = -1; // throwKind, -1 = some other std::exception, -2 = something else entirely
+  int id = -1;
+  bool intact = false; // payload / nested part as thrown
+  std::string text;
+};
+int idAfter(const std::string &s, const char *prefix)
+{
+  std::string p(prefix);
+  if (s.compare(0, p.size(), p) != 0 || s.size() == p.size()) return -1;
+  for (std::size_t i = p.size(); i < s.size(); ++i)
+    if (s[i] < '0' || s[i] > '9') return -1;
+  return std::atoi(s.c_str() + p.size());
+}
+/// catch by type: which exception is behind `ep`?
+Thrown decode(std::exception_ptr ep)
+{
+  Thrown r;
+  if (!ep)
+  {
+    r.text = "null exception_ptr";
+    return r;
+  }
+  try
+  {
+    std::rethrow_exception(ep);
+  }
+  catch (const std::nested_exception &n)
+  {
+    // outer part: the same object is also a TaskError or a PlainError
+    try
+    {
+      throw;
+    }
+    catch (const TaskError &e)
+    {
+      r.kind = 6;
+      r.id = e.id;
+      try
+      {
+        n.rethrow_nested();
+      }
+      catch (const PlainError &in)
+      {
+        r.intact = in.id == e.id && in.payload == plainPayload(e.id);
+      }
+      catch (...)
+      {
+      }
+    }
+    catch (const PlainError &e)
+    {
+      r.kind = 7;
+      r.id = e.id;
+      try
+      {
+        n.rethrow_nested();
+      }
+      catch (int v)
+      {
+        r.intact = v == 1000 + e.id && e.payload == plainPayload(e.id);
+      }
+      catch (...)
+      {
+      }
+    }
+    catch (const std::exception &e)
+    {
+      r.kind = -1;
+      r.text = e.what();
+    }
+    catch (...)
+    {
+      r.kind = -2;
+    }
+  }
+  catch (const TaskError &e)
+  {
+    r.kind = 0;
+    r.id = e.id;
+    r.intact = std::string(e.what()) == "task-error-" + std::to_string(e.id);
+  }
+  catch (const PayloadError &e)
+  {
+    r.kind = 5;
+    r.id = e.id;
+    r.intact = e.text == "payload-" + std::to_string(e.id);
+  }
+  catch (const std::exception &e)
+  {
+    r.kind = -1;
+    r.text = e.what();
+  }
+  catch (int v)
+  {
+    r.kind = 1;
+    r.id = v - 1000;
+    r.intact = true;
+  }
+  catch (const char *m)
+  {
+    r.kind = 2;
+    r.text = m ? m : "(null)";
+    r.id = idAfter(r.text, "cstr-");
+    r.intact = r.id >= 0;
+  }
+  catch (const std::string &m)
+  {
+    r.kind = 3;
+    r.text = m;
+    r.id = idAfter(m, "str-");
+    r.intact = r.id >= 0;
+  }
+  catch (const PlainError &e)
+  {
+    r.kind = 4;
+    r.id = e.id;
+    r.intact = e.payload == plainPayload(e.id);
+  }
+  catch (...)
+  {
+    r.kind = -2;
+  }
+  return r;
+}
+std::string thrownText(const Thrown &t)
+{
+  if (t.kind == -1) return "a different std::exception: " + t.text;
+  if (t.kind == -2) return "an exception of an unknown type";
+  return std::string(throwName(t.kind)) + " with id " + std::to_string(t.id) + (t.intact ? "" : " (payload/nested part damaged)");
+}
+
 enum Kind { kVoid = 0, kValue = 1, kThrow = 2, kNested = 3, kSleep = 4, kForkJoin = 5 };
 enum Api { aEnqueue = 0, aTry = 1, aResult = 2 };
 enum Status { sNotSubmitted = 0, sAccepted = 1, sRefused = 2, sUnknown = 3 };
@@ -62,6 +219,8 @@ struct TaskRec
   int api = aEnqueue;
   int sleepUs = 0;
   std::vector<int> children; // ids of tasks this body submits (kNested, kForkJoin)
+  int throwKind = 0;  // kThrow: see throwName()
+  std::string cstr;   // storage behind a thrown const char*
   int gapLockNth = 0, gapUs = 0; // after the body: scripted delay before the worker's n-th mutex lock
   std::atomic<int> exec{0};
   std::atomic<int> finished{0};
@@ -97,6 +256,8 @@ struct Ctx
   std::atomic<int> workerSeq{0};
   std::atomic<int> forkStuck{0};
   std::string forkStuckWhat;
+  std::atomic<long> handlerForeign{0};
+  std::string handlerForeignWhat;
   bool leak = false; // a worker may still be using this context: the owner must not free it
   std::mutex noteMu;
   std::string unjustifiedWhat; // first one
@@ -113,6 +274,93 @@ long expectedValue(int id) { return static_cast<long>(id) * 7 + 1; }
 
 void submit(Ctx *cx, int id);
 const char *apiName(int a);
+
+[[noreturn]] void throwIt(TaskRec &t, int id)
+{
+  switch (t.throwKind)
+  {
+  case 1: throw 1000 + id;
+  case 2: throw static_cast<const char *>(t.cstr.c_str());
+  case 3: throw std::string("str-" + std::to_string(id));
+  case 4: throw PlainError{id, plainPayload(id)};
+  case 5: throw PayloadError(id);
+  case 6:
+    try
+    {
+      throw PlainError{id, plainPayload(id)};
+    }
+    catch (...)
+    {
+      std::throw_with_nested(TaskError(id));
+    }
+  case 7:
+    try
+    {
+      throw 1000 + id;
+    }
+    catch (...)
+    {
+      std::throw_with_nested(PlainError{id, plainPayload(id)});
+    }
+  default: throw TaskError(id);
+  }
+}
+
+/// onTaskError ("Optional handler for uncaught exceptions in tasks"): whatever it is given must be the
+/// exception some throwing task of this pool really threw (type and value); how often it is called is
+/// not part of C09 and not judged.
+std::function<void(std::exception_ptr)> makeHandler(Ctx *cx)
+{
+  return [cx](std::exception_ptr ep)
+  {
+    cx->handlerCalls.fetch_add(1);
+    Thrown th = decode(ep);
+    bool ok = th.kind >= 0 && th.intact && th.id >= 0 && static_cast<std::size_t>(th.id) < cx->tasks.size();
+    if (ok)
+    {
+      TaskRec &t = *cx->tasks[static_cast<std::size_t>(th.id)];
+      ok = t.kind == kThrow && t.throwKind == th.kind;
+    }
+    if (!ok)
+    {
+      cx->handlerForeign.fetch_add(1);
+      std::lock_guard<std::mutex> lk(cx->noteMu);
+      if (cx->handlerForeignWhat.empty()) cx->handlerForeignWhat = "onTaskError received " + thrownText(th) + ", which no task of this pool threw";
+    }
+  };
+}
+
+/// future of an accepted task after the pool is gone: ready, and holding the task's value or exactly
+/// the exception (type and value) its body threw. Returns {signature, what} or empty strings.
+std::pair<std::string, std::string> checkFuture(TaskRec &t, int id)
+{
+  if (!t.fut.valid() || t.fut.wait_for(std::chrono::seconds(0)) != std::future_status::ready)
+    return {"C09/future-not-ready", pbt::Fmt() << "future of task " << id << " is not ready after the pool was destroyed"};
+  std::exception_ptr ep;
+  long v = 0;
+  try
+  {
+    v = t.fut.get();
+  }
+  catch (...)
+  {
+    ep = std::current_exception();
+  }
+  if (!ep)
+  {
+    if (t.kind == kThrow)
+      return {"C09/future-wrong-result", pbt::Fmt() << "future of task " << id << " delivered the value " << v << " although the task threw " << throwName(t.throwKind)};
+    if (v != expectedValue(id))
+      return {"C09/future-wrong-result", pbt::Fmt() << "future of task " << id << " holds value " << v << ", expected " << expectedValue(id)};
+    return {};
+  }
+  Thrown th = decode(ep);
+  if (t.kind != kThrow)
+    return {"C09/future-wrong-result", pbt::Fmt() << "future of task " << id << " (no exception thrown) rethrows " << thrownText(th)};
+  if (th.kind != t.throwKind || th.id != id || !th.intact)
+    return {"C09/future-wrong-result", pbt::Fmt() << "task " << id << " threw " << throwName(t.throwKind) << " with id " << id << ", future.get() rethrows " << thrownText(th)};
+  return {};
+}
 
 long body(Ctx *cx, int id)
 {
@@ -177,7 +425,7 @@ long body(Ctx *cx, int id)
   t.finished.fetch_add(1, std::memory_order_acq_rel);
   cx->running.fetch_sub(1, std::memory_order_acq_rel);
   if (t.gapUs) sched::scriptLockDelay(static_cast<std::uint32_t>(t.gapLockNth), static_cast<std::uint32_t>(t.gapUs));
-  if (t.kind == kThrow) throw TaskError(id);
+  if (t.kind == kThrow) throwIt(t, id);
   return expectedValue(id);
 }
 
@@ -331,7 +579,7 @@ void run(Plan &pl, Ctx &cx, pbt::Case &c)
   cx.oneIn = sched::kInterposed ? pl.oneIn : 0;
   cx.maxDelay = pl.maxDelay;
   Ctx *cxp = &cx;
-  auto handler = [cxp](std::exception_ptr) { cxp->handlerCalls.fetch_add(1); };
+  auto handler = makeHandler(cxp);
   cx.pool = new ThreadPool(pl.initial, pl.maxSize, std::chrono::milliseconds(pl.idleMs), pl.maxQueue, handler,
                            pl.mode ? ThreadPool::ShutdownMode::GRACEFUL : ThreadPool::ShutdownMode::IMMEDIATE);
   atomicMax(cx.maxThreads, cx.pool->getTotalThreadCount());
@@ -502,7 +750,7 @@ void run(Plan &pl, Ctx &cx, pbt::Case &c)
                                                               << " had returned");
     return;
   }
-  long accepted = 0, refused = 0, futs = 0, reasons[5] = {0, 0, 0, 0, 0};
+  long accepted = 0, refused = 0, futs = 0, reasons[5] = {0, 0, 0, 0, 0}, thrownByType[kThrowKinds] = {0, 0, 0, 0, 0, 0, 0, 0};
   for (std::size_t i = 0; i < cx.tasks.size(); ++i)
   {
     TaskRec &t = *cx.tasks[i];
@@ -526,33 +774,13 @@ void run(Plan &pl, Ctx &cx, pbt::Case &c)
       if (t.hasFut)
       {
         ++futs;
-        if (!t.fut.valid() || t.fut.wait_for(std::chrono::seconds(0)) != std::future_status::ready)
+        auto fr = checkFuture(t, static_cast<int>(i));
+        if (!fr.first.empty())
         {
-          c.fail("C09/future-not-ready", pbt::Fmt() << "future of task " << i << " is not ready after the pool was destroyed");
+          c.fail(fr.first, fr.second);
           return;
         }
-        try
-        {
-          long v = t.fut.get();
-          if (t.kind == kThrow || v != expectedValue(static_cast<int>(i)))
-          {
-            c.fail("C09/future-wrong-result", pbt::Fmt() << "future of task " << i << " (" << kindName(t.kind) << ") holds value " << v);
-            return;
-          }
-        }
-        catch (const TaskError &e)
-        {
-          if (t.kind != kThrow || e.id != static_cast<int>(i))
-          {
-            c.fail("C09/future-wrong-result", pbt::Fmt() << "future of task " << i << " holds a foreign exception " << e.what());
-            return;
-          }
-        }
-        catch (const std::exception &e)
-        {
-          c.fail("C09/future-wrong-result", pbt::Fmt() << "future of task " << i << " holds " << e.what());
-          return;
-        }
+        if (t.kind == kThrow) ++thrownByType[t.throwKind];
       }
     }
     else if (st == sRefused || st == sNotSubmitted)
@@ -575,6 +803,13 @@ void run(Plan &pl, Ctx &cx, pbt::Case &c)
     c.fail("C09/refused-without-documented-reason", cx.unjustifiedWhat);
     return;
   }
+  if (cx.handlerForeign.load() > 0)
+  {
+    c.fail("C09/handler-foreign-exception", cx.handlerForeignWhat);
+    return;
+  }
+  for (int k = 0; k < kThrowKinds; ++k)
+    if (thrownByType[k]) c.label(std::string("future rethrew ") + throwName(k));
   // ---- classification ----------------------------------------------------------------------------
   static const char *endNames[] = {"end: destructor", "end: stop()", "end: shutdown()", "end: drain() + destructor", "end: drain() + stop()"};
   c.label(endNames[pl.endMode]);
@@ -609,6 +844,7 @@ int addTask(Ctx &cx, int kind, int api, int sleepUs)
   t->kind = kind;
   t->api = api;
   t->sleepUs = sleepUs;
+  t->cstr = "cstr-" + std::to_string(cx.tasks.size());
   cx.tasks.push_back(std::move(t));
   return static_cast<int>(cx.tasks.size()) - 1;
 }
@@ -658,7 +894,9 @@ void generated(pbt::Src &src, pbt::Case &c)
       int api = static_cast<int>(r[1] % 3);
       int sleepUs = 30 + static_cast<int>((r[3] * 7) % 600);
       int id = addTask(cx, kind, api, sleepUs);
-      d << " " << kindName(kind) << "/" << apiName(api)[0] << (api == aResult ? "R" : "");
+      cx.tasks[static_cast<std::size_t>(id)]->throwKind = static_cast<int>((r[3] / 3) % kThrowKinds);
+      d << " " << kindName(kind) << (kind == kThrow ? std::string("<") + throwName(static_cast<int>((r[3] / 3) % kThrowKinds)) + ">" : std::string()) << "/"
+        << apiName(api)[0] << (api == aResult ? "R" : "");
       if (kind == kNested)
       {
         int nch = 1 + static_cast<int>(r[3] % 3);
@@ -669,6 +907,7 @@ void generated(pbt::Src &src, pbt::Case &c)
           int ckind = ck[(r[3] / (3 + k)) % 4];
           int capi = static_cast<int>((r[3] / (7 + k)) % 3);
           int cid = addTask(cx, ckind, capi, 30 + static_cast<int>((r[3] * 11) % 400));
+          cx.tasks[static_cast<std::size_t>(cid)]->throwKind = static_cast<int>((r[3] / (11 + k)) % kThrowKinds);
           cx.tasks[static_cast<std::size_t>(id)]->children.push_back(cid);
           d << kindName(ckind) << "/" << apiName(capi)[0] << (capi == aResult ? "R" : "") << (k + 1 < nch ? "," : "");
         }
@@ -840,38 +1079,20 @@ void verifyDestroyed(Ctx &cx, std::size_t maxSize, const char *endName, SlowResu
     }
     if (st == sAccepted && t.hasFut)
     {
-      if (!t.fut.valid() || t.fut.wait_for(std::chrono::seconds(0)) != std::future_status::ready)
+      auto fr = checkFuture(t, static_cast<int>(i));
+      if (!fr.first.empty())
       {
-        res.sig = "C09/future-not-ready";
-        res.what = pbt::Fmt() << "future of task " << i << " is not ready after the pool was destroyed";
-        return;
-      }
-      try
-      {
-        long v = t.fut.get();
-        if (t.kind == kThrow || v != expectedValue(static_cast<int>(i)))
-        {
-          res.sig = "C09/future-wrong-result";
-          res.what = pbt::Fmt() << "future of task " << i << " holds value " << v;
-          return;
-        }
-      }
-      catch (const TaskError &e)
-      {
-        if (t.kind != kThrow || e.id != static_cast<int>(i))
-        {
-          res.sig = "C09/future-wrong-result";
-          res.what = pbt::Fmt() << "future of task " << i << " holds a foreign exception";
-          return;
-        }
-      }
-      catch (const std::exception &e)
-      {
-        res.sig = "C09/future-wrong-result";
-        res.what = pbt::Fmt() << "future of task " << i << " holds " << e.what();
+        res.sig = fr.first;
+        res.what = fr.second;
         return;
       }
     }
+  }
+  if (cx.handlerForeign.load() > 0)
+  {
+    res.sig = "C09/handler-foreign-exception";
+    res.what = cx.handlerForeignWhat;
+    return;
   }
   if (cx.unjustified.load() > 0)
   {
@@ -900,13 +1121,14 @@ void runSlow(const SlowPlan &pl, SlowResult &res)
   cx.maxSize = pl.maxSize;
   cx.maxQueue = 16;
   Ctx *cxr = &cx;
-  auto handler = [cxr](std::exception_ptr) { cxr->handlerCalls.fetch_add(1); };
+  auto handler = makeHandler(cxr);
   std::vector<int> longIds, shortIds;
   for (std::size_t i = 0; i < pl.maxSize; ++i) longIds.push_back(addTask(cx, kSleep, (pl.longApi + static_cast<int>(i)) % 3, pl.longMs * 1000));
   for (int i = 0; i < pl.nShort; ++i)
   {
     static const int ck[] = {kValue, kVoid, kThrow, kSleep};
     shortIds.push_back(addTask(cx, ck[(pl.shortSpec / (1 + i)) % 4], (pl.shortSpec / (5 + i)) % 3, 200));
+    cx.tasks[static_cast<std::size_t>(shortIds.back())]->throwKind = (pl.shortSpec / (2 + i)) % kThrowKinds;
   }
   cx.pool = new ThreadPool(pl.initial, pl.maxSize, std::chrono::milliseconds(pl.idleMs), cx.maxQueue, handler,
                            pl.mode ? ThreadPool::ShutdownMode::GRACEFUL : ThreadPool::ShutdownMode::IMMEDIATE);
@@ -1121,7 +1343,7 @@ void runEdge(const EdgePlan &pl, SlowResult &res)
   cx.maxSize = pl.maxSize;
   cx.maxQueue = 32;
   Ctx *cxr = &cx;
-  auto handler = [cxr](std::exception_ptr) { cxr->handlerCalls.fetch_add(1); };
+  auto handler = makeHandler(cxr);
   cx.pool = new ThreadPool(pl.initial, pl.maxSize, std::chrono::milliseconds(pl.idleMs), cx.maxQueue, handler);
   auto waitFinished = [&](const std::vector<int> &ids)
   {
@@ -1145,6 +1367,7 @@ void runEdge(const EdgePlan &pl, SlowResult &res)
       warm.push_back(id);
     }
     int fin = addTask(cx, pl.finalKind, pl.finalApi, 100);
+    cx.tasks[static_cast<std::size_t>(fin)]->throwKind = (pl.offsetUs < 0 ? -pl.offsetUs : pl.offsetUs) % kThrowKinds;
     for (int id : warm) submit(&cx, id);
     waitFinished(warm);
     int us = pl.idleMs * 1000 + pl.offsetUs;
@@ -1307,12 +1530,42 @@ void forkJoinRegression(pbt::Case &c)
   runEdgeCase(plans, c);
 }
 
+// Every throw kind through every API: futures must rethrow exactly what the task threw; throwing
+// fire-and-forget tasks must not cost the pool a worker or a later task.
+void throwKindsRegression(pbt::Case &c)
+{
+  pbt::watchdog(150, "C09/shutdown-stalled");
+  Plan pl;
+  pl.initial = 1;
+  pl.maxSize = 2;
+  pl.idleMs = 20;
+  pl.maxQueue = 64;
+  pl.endMode = 0;
+  auto cxp = std::make_unique<Ctx>();
+  std::vector<SubOp> ops;
+  for (int api = 2; api >= 0; --api)
+    for (int k = 0; k < kThrowKinds; ++k)
+    {
+      int id = addTask(*cxp, kThrow, api, 0);
+      cxp->tasks[static_cast<std::size_t>(id)]->throwKind = k;
+      ops.push_back(SubOp{id, 0});
+      ops.push_back(SubOp{addTask(*cxp, kValue, aResult, 0), 0}); // a later task behind every throwing one
+    }
+  pl.subs.push_back(ops);
+  pl.trigger = static_cast<long>(ops.size());
+  c.describe("pool(1,2,20ms,64): the 8 throw kinds (TaskError, int, const char*, std::string, PlainError, PayloadError, two nested forms) via "
+             "enqueueWithResult, tryEnqueue and enqueue, each followed by a value task with a future; then destruction");
+  run(pl, *cxp, c);
+  if (cxp->leak) cxp.release();
+}
+
 } // namespace c09
 
 PBT_REGRESSION(worker_idle_exit_before_registration) { c09::idleExitBeforeRegistration(c); }
 PBT_PROPERTY(pool) { c09::generated(src, c); }
 PBT_PROPERTY(pool_slow) { c09::generatedSlow(src, c); }
 PBT_PROPERTY(pool_edge) { c09::generatedEdge(src, c); }
+PBT_REGRESSION(future_rethrows_exactly_what_the_task_threw) { c09::throwKindsRegression(c); }
 PBT_REGRESSION(last_submission_at_idle_exit) { c09::idleExitRegression(c); }
 PBT_REGRESSION(fork_join_child_runs_while_parent_waits) { c09::forkJoinRegression(c); }
 PBT_REGRESSION(stop_waits_for_task_longer_than_internal_polls) { c09::slowRegression(c); }
